@@ -94,6 +94,11 @@ class SimScorer:
         elif m == "coarse_neg":
             # the best score is exactly 0.0 (or -0.0), everything else below it
             v = self.rng.choice([0.0, -0.0, -1.0, -2.5, 0.0])
+        elif m == "poison":
+            # a caller's scorer that sometimes answers NaN / +-inf: whatever the search does
+            # with such candidates, a non-finite score must not be streamed
+            v = self.rng.choice([float("nan"), float("inf"), float("-inf")]) \
+                if self.rng.random() < 0.2 else self.rng.random()
         elif m == "script":
             v = self.script[self.n - 1] if self.n - 1 < len(self.script) else 0.0
         else:
@@ -153,7 +158,7 @@ class Snapshots:
         PP = self.lib["partial_parse"].PartialParse
         self.saved_filter = PP._filter_rules
         if self.skip:
-            PP._filter_rules = lambda self_, rules_: dict(rules_)
+            PP._filter_rules = lambda self_, rules_, *a, **k: dict(rules_)
         return self
 
     def __exit__(self, *a):
@@ -460,6 +465,8 @@ def execute(case):
                         or not math.isfinite(c.score):
                     viol("C14.finite", "score-not-finite",
                          "text=%r sched=%s: candidate %s has score %r" % (text, tag, s[0], c.score))
+            if run["sched"]["mode"] == "poison":
+                continue   # ordering / best-of are not defined over NaN
             # ---- dedup over the emission history (before latent anchoring)
             if not run.get("latent"):
                 best = {}
@@ -531,6 +538,7 @@ def _schedulers(rng, n_random):
     for _ in range(n_random):
         s.append({"mode": rng.choice(["uniform", "uniform", "coarse", "coarse_neg"]),
                   "seed": rng.randrange(1 << 30)})
+
     return s
 
 
@@ -587,6 +595,16 @@ def _texts(rng, n, prop="C15"):
             du = "%d %s" % (nn, rng.choice(["nacht", "nights", "days", "tage"]))
             t = rng.choice(["%s %s" % (iv, du), "%s für %s" % (iv, du), "%s %s" % (du, iv),
                             "%s %s für 1 tag" % (iv, du)])
+        elif r < 0.8 + 0.052:
+            # a part of day in front of a clock interval (rulePODInterval shifts the hours of
+            # an interval that other partial parses still hold)
+            pod = rng.choice(["in the evening", "tonight", "abends", "nachmittags", "afternoon",
+                              "late evening", "at night", "morning"])
+            a, b = rng.randint(1, 11), rng.randint(1, 11)
+            iv = rng.choice(["between %d and %d", "%d-%d", "%d bis %d", "from %d to %d",
+                             "nach %d", "before %d"])
+            iv = iv % ((a, b) if iv.count("%d") == 2 else (a,))
+            t = "%s %s" % (pod, iv)
         elif r < 0.8 + 0.06:
             # the same joiner / absorber word leading the text and recurring between two
             # values (a bullet "- 10.5. - 12.5.", "to 5 to 6"): the first occurrence of a
@@ -643,6 +661,8 @@ def plan(prop, tier, seed):
     for text in _texts(rng, n_texts, prop):
         ts = workload.ref_time(rng, 2016, 2043).replace(microsecond=0)
         scheds = _schedulers(rng, 3 if quick else 12)
+        if prop == "C15":
+            scheds = [x for x in scheds if x["mode"] != "poison"]
         runs = []
         if prop == "C15":
             for s in scheds:
